@@ -201,7 +201,9 @@ fn types_equal_inner(
         (TypeDef::Variant(a), TypeDef::Variant(b)) => {
             a.variants.len() == b.variants.len()
                 && a.variants.iter().zip(b.variants.iter()).all(|(a, b)| {
-                    a.name == b.name && fields_equal(&a.fields, &b.fields, visited)
+                    a.name == b.name
+                        && a.index == b.index
+                        && fields_equal(&a.fields, &b.fields, visited)
                 })
         }
         // Other types with a path (not something scale-info generates, but it is possible):
